@@ -23,7 +23,7 @@ CHECK = dict(
           "calls to validators/attester/proposer/sync duties x {no slow call, one of the first 16 calls taking 1.5 / 2.5 / 3.5 slots (late and "
           "skipped ticks)} x chain-reorg event {none; 5 s into run slot 2, 3 or 7, delivered to HandleChainReorgEvent (feature on) and to the duties "
           "cache}; 4 slots/epoch, 12 s slots, 12 slots per run, cluster validators 1,2 active, 3 activating at the third epoch, 4 exited, "
-          "foreign validator 9. CLOCK STEPS: complete product of one wall-clock step of delta in {-48 s (one epoch), -18 s (1.5 slots), "
+          "foreign validator 9. HEAD EVENTS: with the feature FetchAttOnBlock resp. FetchAttOnBlockWithDelay enabled and a fetch-only function registered, one SSE head event for run slot k (k=1..9) is handed to HandleHeadEvent 250 ms or 50 ms BEFORE the start (tick) of that slot, 100 ms after it or 100 ms before the attester offset - 2 features x 5 tables x 3 start slots x 9 slots x 4 instants = 1080 scripts, same oracle (the attester duty is triggered once, not before its offset, with the assigned definitions); counter head_event_early_fetches_started. CLOCK STEPS: complete product of one wall-clock step of delta in {-48 s (one epoch), -18 s (1.5 slots), "
           "-6 s (half a slot), -1 ms, +1 ms, +6 s, +18 s, +48 s} x instant in {250 ms before the start of run slot k (k=1..11), 250 ms "
           "after it (k=1..11), 5.5 s into run slot k (k=0..11, between the attester and the aggregator offset) - this includes just "
           "before / after every epoch boundary of the run - and 'while beacon call #c is in flight' (c=0..15: the call takes 1 s, the "
